@@ -190,7 +190,10 @@ func (p *c02Pipe) close() {
 	p.ss.Wait()
 }
 
+const c02SessionTimeout = 5 * time.Second
+
 type c02HTTP struct {
+	timeout   time.Duration
 	s         *Server
 	h         *StreamableHTTPHandler
 	stateless bool
@@ -203,7 +206,7 @@ type c02HTTP struct {
 
 func (d *c02HTTP) open(version string) error {
 	d.version = version
-	d.h = NewStreamableHTTPHandler(func(*http.Request) *Server { return d.s }, &StreamableHTTPOptions{Stateless: d.stateless, JSONResponse: d.jsonResp, Logger: quietLogger})
+	d.h = NewStreamableHTTPHandler(func(*http.Request) *Server { return d.s }, &StreamableHTTPOptions{Stateless: d.stateless, JSONResponse: d.jsonResp, Logger: quietLogger, SessionTimeout: d.timeout})
 	if d.stateless {
 		return nil
 	}
@@ -411,7 +414,10 @@ type c02Case struct {
 	units   []string  // wire units in order
 	sent    []c02Sent // every message contained in the units
 	release []int     // order in which gated handlers (by K) are released
-	desc    string
+	// pause: virtual time that passes after each release (the streamable drivers ending in
+	// "+timeout" close sessions idle for c02SessionTimeout; a session with a POST in flight is not idle)
+	pause time.Duration
+	desc  string
 }
 
 func c02NewServer(gates map[string]chan struct{}, started *[]string) *Server {
@@ -443,6 +449,10 @@ func c02Driver_(name string, s *Server) c02Driver {
 		return &c02HTTP{s: s, stateless: true}
 	case "http-stateless-json":
 		return &c02HTTP{s: s, stateless: true, jsonResp: true}
+	case "http-stateful-sse+timeout":
+		return &c02HTTP{s: s, timeout: c02SessionTimeout}
+	case "http-stateful-json+timeout":
+		return &c02HTTP{s: s, jsonResp: true, timeout: c02SessionTimeout}
 	case "sse":
 		return &c02SSE{s: s}
 	}
@@ -471,9 +481,13 @@ func c02RunCase(c c02Case) (obs, sig, msg string) {
 		}
 	}
 	// release gated handlers in the chosen order, letting everything settle in between
-	for _, k := range c.release {
+	for i, k := range c.release {
 		synctest.Wait()
 		close(gates[fmt.Sprint(k)])
+		if c.pause > 0 && i < len(c.release)-1 {
+			synctest.Wait()
+			time.Sleep(c.pause)
+		}
 	}
 	synctest.Wait()
 	// usable afterwards: a final ping is answered
@@ -740,6 +754,13 @@ func c02Cases(quick bool) []c02Case {
 			s2.unit = 1
 			cases = append(cases, c02Case{driver: drv, version: "2025-06-18", units: []string{u1, u2}, sent: []c02Sent{s1, s2}, release: perm,
 				desc: fmt.Sprintf("%s two in-flight calls release=%v", drv, perm)})
+			if strings.HasPrefix(drv, "http-stateful") {
+				// the same with an idle timeout configured and more than that timeout passing between the two completions
+				cases = append(cases, c02Case{driver: drv + "+timeout", version: "2025-06-18", units: []string{u1, u2}, sent: []c02Sent{s1, s2}, release: perm, pause: c02SessionTimeout - time.Second,
+					desc: fmt.Sprintf("%s+timeout two in-flight calls release=%v, %v between completions (session timeout %v)", drv, perm, c02SessionTimeout-time.Second, c02SessionTimeout)})
+				cases = append(cases, c02Case{driver: drv + "+timeout", version: "2025-06-18", units: []string{u1, u2}, sent: []c02Sent{s1, s2}, release: perm, pause: c02SessionTimeout + time.Second,
+					desc: fmt.Sprintf("%s+timeout two in-flight calls release=%v, %v between completions (session timeout %v)", drv, perm, c02SessionTimeout+time.Second, c02SessionTimeout)})
+			}
 		}
 		// duplicate in-flight id: the second is refused, the first still gets its own answer exactly once
 		u1, s1 := g(1, "5")
